@@ -458,9 +458,9 @@ def q_bits(obj):
 def judge_qdict(run, limit, cfg, recs, excluded, qdict, mirrored, ctx):
   """clauses on the dictionary the REAL quantize_model handed to model_quantize"""
   role_index = {"kernel_quantizer": ("kernel", 0), "depthwise_quantizer": ("kernel", 0),
-                "bias_quantizer": ("bias", 1), "activation": ("activation", -1),
+                "bias_quantizer": ("bias", 1), "activation_quantizer": ("activation", -1),
                 "pointwise_quantizer": ("kernel", 0), "recurrent_quantizer": ("kernel", 0),
-                "recurrent_activation": ("recurrent_activation", -1)}
+                "recurrent_activation_quantizer": ("recurrent_activation", -1)}
   group_vals = {}
   for i, r in enumerate(recs):
     name, cls = r["name"], r["cls"]
@@ -482,8 +482,11 @@ def judge_qdict(run, limit, cfg, recs, excluded, qdict, mirrored, ctx):
         continue
       if role == "activation_layer":
         field, index = ("linear", 0) if r["act"] == "linear" else ("activation", -1)
-      else:
+      elif role in role_index:
         field, index = role_index[role]
+      else:
+        run.violate("unknown_key", {"site": "q_dict", "role": role}, dict(ctx, layer=name, entry=entry), mirrored)
+        continue
       named = ("kernel" in name) or ("bias" in name)
       site = ("shared_variable" if role in ("pointwise_quantizer", "recurrent_quantizer") else
               "head_substring" if named else "q_dict")
@@ -520,7 +523,7 @@ def judge_qmodel(run, get_quantizer, limit, cfg, recs, excluded, model, qmodel, 
     run.violate("architecture", {"site": "layer_list"}, dict(ctx, got=[l.name for l in qlayers]), mirrored)
     return
   cfg_strs = {}
-  for f in ("activation", "linear"):
+  for f in ("activation", "linear", "recurrent_activation"):
     for s in cfg.get(f, {}):
       try:
         cfg_strs.setdefault(str(get_quantizer(s)), []).append((f, s))
@@ -558,6 +561,9 @@ def judge_qmodel(run, get_quantizer, limit, cfg, recs, excluded, model, qmodel, 
       act = ql.activation
       if act is not None and hasattr(act, "bits"):
         checks.append(("fused_activation", "activation", -1, ("obj", str(act)), q_bits(act)))
+      ract = getattr(ql, "recurrent_activation", None)
+      if qcls == "QLSTM" and ract is not None and hasattr(ract, "bits"):
+        checks.append(("recurrent_activation", "recurrent_activation", -1, ("obj", str(ract)), q_bits(ract)))
     elif qcls == "QActivation":
       s = ql.activation
       f, ix = ("linear", 0) if r["act"] == "linear" else ("activation", -1)
